@@ -10,6 +10,7 @@ evaluator finds the NL model violated at the point, or the damage is far above t
 exact or far below tolerance.
 """
 import json
+import os
 from fractions import Fraction as F
 
 from hypothesis import strategies as st
@@ -152,6 +153,14 @@ def judge(n, info, pick, damage, which, fail, mode, res, known=()):
             applied = damage
     if applied.startswith("tiny") and not nlfeas:
         expect = True
+    if applied == "tiny-bound" and mode is not None and mode & (32 | 64 | 128 | 256):
+        # the idealistic bits recompute every expression from the variables "without considering possible tolerances" (option text of
+        # sol:chk:mode, modeling-tools.rst): when the nudge across the bound flips a discontinuous expression (x <= 1 at x = 1 + 2^-40
+        # inside a count), reporting the difference is the documented behaviour - such a case has no single expected verdict
+        xr = forward(fm, x[:norig])
+        if xr is None or any(xr[i] is None or abs(xr[i] - x[i]) > F(1, 2 ** 30) for i in range(norig, fm.nvars)):      # a continuous change stays near 2^-40
+            res.label("not judged: tiny nudge flips a recomputed expression under an idealistic mode")
+            return None
     opts = list(base_opts)
     if mode is not None:
         opts.append("sol:chk:mode=%d" % mode)
@@ -205,6 +214,13 @@ def run(ctx):
         n, _, _ = nl.normalize(m)
         return judge(n, info, pick, damage, which, fail, mode, res, known)
     res = hyp.run_property(ctx, cases(), check, ctx.pick(6000, 100000), known_keys=known, time_budget=ctx.pick(300, 900))
+    import glob
+    for f in sorted(glob.glob(os.path.join(common.ROOT, "regress", ctx.pid, "*.json"))):
+        c = json.load(open(f))
+        v = judge(nl.model_from_obj(c["model"]), dict(ops=set(c["info"]["ops"]), nbprod=c["info"]["nbprod"]), c["pick"], c["damage"], c["which"], c["fail"],
+                  c["mode"], res, known)
+        if v:
+            res.violation("regression input fails again: %s: %s" % (os.path.basename(f), v[0]), None, f)
     return common.finish(ctx, res, "exploration", RULE,
                          ["accept-all configuration: every auxiliary variable is functionally determined and forward-evaluated exactly",
                           "damage margins are 2^-6 (far above) or 2^-40 (far below) the tolerances; the band in between is not generated",
